@@ -1,12 +1,17 @@
-"""Print the worlds stored in replay files (triage aid)."""
+"""Print the worlds stored in replay files (triage aid).  --original shows the unminimised case where recorded."""
 import json, glob, sys
 sys.path.insert(0, '/verif')
 from sim import world as W
-for f in sorted(sys.argv[1:]):
+orig = '--original' in sys.argv
+for f in sorted(a for a in sys.argv[1:] if not a.startswith('--')):
     d = json.load(open(f))
-    print('=' * 30, d['expect']['signature'], d.get('minimised_from'))
-    print(d['detail'])
+    print('=' * 30, d['expect']['signature'], d.get('minimised_from'), 'task', d.get('tier'), d.get('task_index'))
     pl = d['payload']
+    if orig and d.get('original_payload'):
+        pl = d['original_payload']
+        print(d.get('original_detail'))
+    else:
+        print(d['detail'])
     if 'world' in pl:
         for k, t in W.render_world(pl['world']).items():
             print('####', k); print(t)
